@@ -536,17 +536,95 @@ def check_copied_context(case, acc):
             break
 
 
+# ---------------------------------------------------------------------------------------------
+# a singleton checked through __new__ (no constructor): its invariant or its methods may obtain the object through the constructor
+
+SINGLETON_SRC = '''\
+import icontract
+LOG = []
+MODE = {"inv": None, "body": None, "budget": 0}
+class Runaway(BaseException): pass
+def act(what):
+    if len(LOG) > 3000:
+        raise Runaway()
+    if what == "S()":
+        S()
+    elif what == "m":
+        S().m()
+    elif what == "m,m":
+        S().m()
+        S().m()
+def inv(self):
+    LOG.append("inv")
+    act(MODE["inv"])
+    return True
+@icontract.invariant(inv)
+class S(icontract.DBC):
+    _it = None
+    def __new__(cls):
+        if S._it is None:
+            S._it = super().__new__(cls)
+        return S._it
+    def m(self):
+        LOG.append("m.body")
+        if MODE["budget"] > 0:
+            MODE["budget"] -= 1
+            act(MODE["body"])
+        return 1
+'''
+
+
+def check_singleton(acc):
+    ns = core.load_source(SINGLETON_SRC, "c10s")
+    try:
+        for inv_act in (None, "S()", "m", "m,m"):
+            for body_act in (None, "S()", "m"):
+                for top in ("S()", "m", "m,m"):
+                    for warm in (False, True):
+                        def go():
+                            ns["S"]._it = None
+                            ns["MODE"].update({"inv": None, "body": None, "budget": 0})
+                            if warm:
+                                ns["S"]()   # the instance exists already
+                            ns["MODE"].update({"inv": inv_act, "body": body_act, "budget": 2})
+                            del ns["LOG"][:]
+                            try:
+                                ns["act"](top)
+                                return "ret"
+                            except BaseException as e:  # noqa
+                                return type(e).__name__
+                        out = core.fresh_ctx_run(go)
+                        log = list(ns["LOG"])
+                        acc.case(("singleton", inv_act, body_act, top, warm), True, len(log), out)
+                        feats = {"family": "singleton", "inv_action": inv_act, "body_action": body_act, "top": top, "warm": warm,
+                                 "slots": "singleton", "nslots": 0, "total_len": 0, "falsy": None}
+                        script = SINGLETON_SRC + "\n# invariant does {!r}, body does {!r}, top-level {!r}, instance exists before: {}\n".format(inv_act, body_act, top, warm)
+                        if out != "ret":
+                            acc.violation(core.Violation(PROP, "nontermination" if out in ("RecursionError", "Runaway") else "unexpected_exception", feats,
+                                                         "singleton without constructor (invariant does {!r}, method body does {!r}): top-level {!r} ended with {} "
+                                                         "after {} events".format(inv_act, body_act, top, out, len(log)), spec={"singleton": [inv_act, body_act, top, warm]}, script=script))
+                        elif "inv" not in log:
+                            acc.violation(core.Violation(PROP, "call_not_fully_checked", feats,
+                                                         "singleton: top-level {!r} evaluated no invariant at all: log {}".format(top, log),
+                                                         spec={"singleton": [inv_act, body_act, top, warm]}, script=script))
+        acc.sample({"family": "singleton"}, cap=1)
+    finally:
+        core.unload_source(ns)
+
+
 def work(chunk):
     acc = core.Acc()
     old = sys.getrecursionlimit()
     sys.setrecursionlimit(600)
     try:
         for prog in chunk:
-            if isinstance(prog, tuple):
+            if prog == "singleton":
+                check_singleton(acc)
+            elif isinstance(prog, tuple):
                 check_copied_context(prog, acc)
             else:
                 check_program(prog, acc)
-        if chunk and not isinstance(chunk[0], tuple):
+        if chunk and isinstance(chunk[0], dict):
             acc.sample({"program": chunk[0], "tops": TOPS})
     finally:
         sys.setrecursionlimit(old)
@@ -556,7 +634,7 @@ def work(chunk):
 def run(tier, t0):
     progs = programs(tier)
     copied = copied_context_cases()
-    tot = core.merge(core.pmap(work, core.rotate(progs + copied)))
+    tot = core.merge(core.pmap(work, core.rotate(progs + copied) + ["singleton"]))
     return core.finish(
         PROP, tier, tot, t0,
         rule="call-graph programs over f (pre/capture/post), g and g2 (pre/post, made by one factory: shared code objects), h (capture/post "
@@ -569,7 +647,9 @@ def run(tier, t0):
              "operation on the same object) is fully checked; re-entrant calls may be checked or bare; non-trivial = every program. " +
              "Plus {} copied-context cases: a slot (each of the 23) copies the current context while its call is in progress (as create_task / "
              "copy_context().run in a worker do), with one of 7 re-entering scripts elsewhere; after the first top-level action has finished, "
-             "each of 5 top-level actions runs inside the copied context and is judged as a fresh top-level call (terminates, fully checked)".format(len(copied)),
+             "each of 5 top-level actions runs inside the copied context and is judged as a fresh top-level call (terminates, fully checked); "
+             "plus 72 singleton programs (class checked through __new__, no constructor; invariant and method body obtain the object through the constructor "
+             "or call its method): termination".format(len(copied)),
         assumptions=["body scripts run at most twice per run (the program's own recursion is finite); contract scripts are unguarded",
                      "recursion limit 600 frames, 6000 events as the runaway detector"],
         bounds={"programs": len(progs), "max_nonempty_slots": 2 if tier == "quick" else 3, "max_script_len": 2},
@@ -580,7 +660,9 @@ def replay(path):
     data = json.load(open(path))["spec"]
     acc = core.Acc()
     sys.setrecursionlimit(600)
-    if data.get("copied"):
+    if data.get("singleton"):
+        check_singleton(acc)
+    elif data.get("copied"):
         check_copied_context((data["prog"], data["top"], data["later_top"]), acc)
     else:
         check_program(data["prog"], acc)
